@@ -17,6 +17,7 @@ mod rng;
 mod world;
 mod props {
     pub mod c01;
+    pub mod c02;
     pub mod c17;
 }
 
@@ -92,12 +93,14 @@ fn main() {
         let v: report::Violation = serde_json::from_str(&text).unwrap_or_else(|e| harness_error(&format!("replay file: {e}")));
         match cmd {
             "C01" => props::c01::replay(&env, &v.replay),
+            "C02" => props::c02::replay(&env, &v.replay),
             "C17" => props::c17::replay(&env, &v.replay),
             _ => harness_error(&format!("no replayer for {cmd}")),
         }
     } else {
         match cmd {
             "C01" => props::c01::run(&env),
+            "C02" => props::c02::run(&env),
             "C17" => props::c17::run(&env),
             _ => harness_error(&format!("unknown command {cmd}")),
         }
